@@ -1052,3 +1052,6 @@ Lemma find_formula_derive_admin : forall m p g cfg u rq q o,
 Proof.
   intros m p g cfg u rq q o _ Hd. pose proof (derive_sound g) as S. rewrite Hd in S. exact (S cfg u rq q o).
 Qed.
+
+Lemma auth_refresh_check : auth_refresh_with_every_update_now = true.
+Proof. vm_compute. reflexivity. Qed.
